@@ -50,7 +50,9 @@ Inductive op :=
 | OShrinkToFit (extra : N)                    (* ShrinkToFit(extra) = EnsureSize(GetNumItems()+extra, false, 0, true) *)
 | OEnsureCanAdd (n : N)                       (* EnsureCanAdd(n)   = EnsureSize(GetNumItems()+n) *)
 | OReplaceAll (x : Z)                         (* ReplaceAllItems(x) *)
-| OPieces.                                    (* GetArrayPointer(0,..) and GetArrayPointer(1,..): the contiguous pieces of the window *)
+| OPieces                                     (* GetArrayPointer(0,..) and GetArrayPointer(1,..): the contiguous pieces of the window *)
+| OAdopt (xs spare : list Z)                  (* AdoptRawDataArray(n, array, |xs|): array = xs followed by |spare| more slots *)
+| ORelease.                                   (* ReleaseRawDataArray() *)
 
 Inductive out := OStatus (ok : bool) | OVal (v : option Z) | ONum (n : nat) | OIdx (i : option nat) | ONone
                | OList (l : list Z).
@@ -300,6 +302,8 @@ Definition step0 (l : list Z) (o : op) : list Z * out :=
   | OEnsureCanAdd n => (l, OStatus (negb (too_big (N.of_nat (length l)) n)))
   | OReplaceAll x => (repeat x (length l), ONone)
   | OPieces => (l, OList l)
+  | OAdopt xs _ => (xs, ONone)
+  | ORelease => ([], ONone)
   end.
 
 (* ---- two ideal sequences (operations that involve a second Queue, or the Queue itself as argument) *)
@@ -746,6 +750,23 @@ Definition pieces (q : q1) : list Z * list Z :=
           if tail q <? head q then firstn (tail q + 1) (arr q) else [])
   end.
 
+(* AdoptRawDataArray(numItemsInArray, array, validItemCount): Clear(true), then the caller's array becomes the heap
+   array (of any length, even shorter than the in-object one).  The caller is responsible for what the slots behind
+   the valid items hold; for owning items they have to be default items ("only if you know what you are doing"), so
+   the operation is modelled with such an array: xs followed by |spare| default items (owning) / the items of spare. *)
+Definition adopt (q : q1) (xs spare : list Z) : q1 :=
+  let q0 := clear q true in
+  let a := xs ++ (if owning then repeat dflt (length spare) else spare) in
+  mkQ SHeap a (length xs) 0 (length xs - 1) (match st q0 with SSmall => arr q0 | _ => inl q0 end).
+
+(* ReleaseRawDataArray(): a heap array is handed out as it is (ring order) and the Queue forgets it; an in-object
+   array is copied, in user order, into a fresh array of the same length and the Queue is cleared *)
+Definition release (q : q1) : q1 * list Z :=
+  match st q with
+  | SSmall => (clear q false, abs q ++ repeat fresh (qsize q - cnt q))
+  | _ => (mkQ SNull [] 0 (head q) (tail q) (inl q), arr q)
+  end.
+
 Definition step1 (q : q1) (o : op) : q1 * out :=
   match o with
   | OAddTail x => (add_tail q x, OStatus true)
@@ -797,6 +818,8 @@ Definition step1 (q : q1) (o : op) : q1 * out :=
       else (ensure_size q (cnt q + N.to_nat n) false 0 false, OStatus true)
   | OReplaceAll x => (write_from q 0 (repeat x (cnt q)), ONone)
   | OPieces => (q, OList (fst (pieces q) ++ snd (pieces q)))
+  | OAdopt xs spare => (adopt q xs spare, ONone)
+  | ORelease => (fst (release q), ONone)
   end.
 
 Definition run1 (ops : list op) : q1 * list out :=
